@@ -102,6 +102,12 @@ class Ctx:
     def violate(self, key: str, what: str, case=None, detail=None):
         """key: mechanism key (structural, no seeds/ids); what: human text"""
         case = case if case is not None else self.current_case
+        if "MemoryError" in key:
+            # the worker's address-space cap was hit (worker_main): a cost wall of the library on this input, not an
+            # observation about the property - inconclusive, never a violation
+            self.inconclusive_cases += 1
+            self.count("case_out_of_memory")
+            return
         rec = {"key": key, "what": what[:600], "detail": detail}
         n_same = sum(1 for v in self.violations if v["key"] == key)
         self.counters["violation:" + key] += 1
@@ -151,6 +157,9 @@ def run_cases(ctx: Ctx, mod, cases):
         except TimeoutError:
             ctx.inconclusive_cases += 1
             ctx.count("reference_budget_exhausted")
+        except MemoryError:
+            ctx.inconclusive_cases += 1
+            ctx.count("case_out_of_memory")
         finally:
             signal.setitimer(signal.ITIMER_REAL, 0)
         if not ctx.time_left():
@@ -161,6 +170,13 @@ def worker_main(prop, tier, seed, shard, nshards, out):
     from . import reach, sem
 
     assert_repo()
+    try:  # a runaway input must fail inside its own worker (MemoryError -> inconclusive), not take the machine down
+        import resource
+
+        cap = int(float(os.environ.get("SMG_WORKER_MEM_GB", "10")) * 2**30)
+        resource.setrlimit(resource.RLIMIT_AS, (cap, cap))
+    except Exception:  # noqa: BLE001
+        pass
     sem.self_test()
     mod = load_module(prop)
     ctx = Ctx(prop, tier, seed, shard, nshards)
